@@ -342,6 +342,16 @@ func RunStream(c *Ctx, cfg StreamCfg, handle func(w *Worker, sc StrCase, res *[s
 			})
 		}
 	}
+	// corners of the packed representation (every field at its highest / lowest code) and everything 1-2 metrics away
+	if cfg.Cover {
+		for vi, api := range probe.APIs {
+			vi, v := vi, api.Ver
+			list := cornerAssigns(api)
+			c.Parallel("packed-corners-"+v.Name, len(list), 64, func(w *Worker, i int) {
+				do(w, StrCase{v.Canonical(list[i]), vi, "packed-corner"})
+			})
+		}
+	}
 	// COMPLETE per anchor: BLOCK RELABELLING. A fixed-layout fast path may check a run of elements only relative to
 	// each other ("three couples with the same first letter") -- wrong strings of that kind are several simultaneous
 	// edits away from any valid vector. For every window width w in {1,2,3,4,6} and every pair of windows (i, j) of
